@@ -26,6 +26,7 @@ type schemaGen struct {
 	out      *strings.Builder
 	ignored  map[string]bool
 	order    []string
+	hoisting map[string]bool
 }
 
 func leanName(def string) string { return "schema_" + strings.ReplaceAll(def, "-", "_") }
@@ -48,6 +49,14 @@ func (g *schemaGen) term(v any, where string) string {
 	m, ok := v.(map[string]any)
 	if !ok {
 		die("schema: %s is not an object", where)
+	}
+	// inline object schemas nested inside another schema get a def of their own (named by their path)
+	if _, hasProps := m["properties"]; hasProps && strings.Contains(where, ".") && !g.hoisting[where] {
+		g.hoisting[where] = true
+		name := "inline_" + strings.NewReplacer(".", "_", "-", "_").Replace(where)
+		t := g.term(v, where)
+		fmt.Fprintf(g.out, "def %s : Schema := %s\n", leanName(name), t)
+		return leanName(name)
 	}
 	if ref, ok := m["$ref"]; ok {
 		name := g.refTarget(ref.(string))
@@ -176,7 +185,7 @@ func genSchema(outDir string) {
 		die("schema: defs.json has no definitions object")
 	}
 	var body strings.Builder
-	g := &schemaGen{defs: defs, emitted: map[string]bool{}, visiting: map[string]bool{}, out: &body, ignored: map[string]bool{}}
+	g := &schemaGen{defs: defs, emitted: map[string]bool{}, visiting: map[string]bool{}, out: &body, ignored: map[string]bool{}, hoisting: map[string]bool{}}
 	rootTerm := g.term(root, "schema.json")
 	var w strings.Builder
 	w.WriteString("/- GENERATED by /verif/factgen from schema/schema.json and schema/defs.json. Do not edit. -/\n")
